@@ -3,7 +3,7 @@ import ast
 
 from ..model import AnalysisError
 from ..lib import (FV, decode_new, decode_call, phi_members, is_sym, is_const, is_str, strip_stores, stores_of,
-                   find_assign, find_assigns, simple_assigns, local_term)
+                   find_assign, find_assigns, simple_assigns, local_term, cond_equiv, cond_implies, path_term)
 from ..cfg import always_raises, walk_stmts
 from ..terms import r_neg, r_mul, r_div, r_sub, r_add
 from . import common as cm
@@ -28,6 +28,11 @@ ANCHORS = [
 T = "tools.tools."
 PT = {"field": FIELD, "mesh": MESH, "m": FIELD, "tensor": FIELD}
 
+AUTOMUT_TRIAGE = [
+    (r"count_bps$", r"pattern|for q_val in", "the run-length pattern string is auxiliary output; the statement speaks of the Bloch-point counts "
+     "(bp_number, head-to-head, tail-to-tail), which are checked (C19.D5)"),
+]
+
 
 def run(chk):
     repo = chk.repo
@@ -37,6 +42,7 @@ def run(chk):
     d4_neighbour_angle(chk, repo)
     d5_bloch_points(chk, repo)
     d6_demag(chk, repo)
+    d7_completions(chk, repo)
     chk.trust("np.einsum('...j,...j->...') is the per-cell dot product; np.arccos o np.clip[-1,1] lies in [0, pi]; "
               "itertools.product([0,1], repeat=6) enumerates the 64 corner combinations")
     chk.assume("integer charges, invariance under vector rotation, trace -1 of the Fourier-space tensor, agreement of the two "
@@ -466,7 +472,10 @@ def d6_demag(chk, repo):
               "hy_fft": "tensor.ft_xy * M.ft_x + tensor.ft_yy * M.ft_y + tensor.ft_yz * M.ft_z",
               "hz_fft": "tensor.ft_xz * M.ft_x + tensor.ft_yz * M.ft_y + tensor.ft_zz * M.ft_z"}
     fm = find_assign(h, lambda t_, s_: (decode_call(h.ctx, t_) or ("",))[0] == "Field.fftn")
-    chk.require(fm is not None, "demag_field: the transformed magnetisation vanished")
+    if fm is None:
+        chk.ob(T + "demag_field::zero-padding", False, "C19.D6",
+               "the magnetisation is no longer transformed with the forward transform (.fftn()) before the tensor is applied", h.f)
+        return
     M = fm[2]
     # the three field components in stacking order
     stacked = None
@@ -502,3 +511,158 @@ def d6_demag(chk, repo):
                 okr = h.eq(idx, h.ctx.args_of(ref)[1]) and h.eq(d_[1].get("mesh"), h.spec("m.mesh"))
     chk.ob(T + "demag_field::crop", okr, "C19.D6",
            "the field is the real part of the inverse transform cropped to [n-1:] on every axis, on m.mesh", h.f, r3)
+
+
+# ------------------------------------------------------------------ D7
+def d7_completions(chk, repo):
+    chk.rule("C19.D7", "branch selection, accumulators and sampling points: each method name selects its own formula; the lattice "
+                       "density starts from zero, counts one per triangle, uses a triangle only when BOTH of its neighbours exist and "
+                       "normalises only when at least one triangle was found; degrees are produced only on request; the numpy "
+                       "tensor samples exactly the cell centres of the 2n-1 mesh in x,y,z ('ij') order and both implementations "
+                       "return the forward transform of the sampled tensor; the demagnetising field is the inverse transform")
+    v = FV(repo, T + "topological_charge_density", param_types=PT)
+    o = v.spec("field.orientation")
+    # method dispatch
+    rets = [r for r in v.returns() if r.value is not None]
+    for r in rets:
+        t = v.ev.term(r.value, at=r)
+        pt = path_term(v, r)
+        if any(hd[:2] == ("call", "Field.dot") or hd[:2] == ("call", ".dot") for hd in v.ctx.heads_in(t)):
+            chk.ob(T + "topological_charge_density::continuous-iff-requested", cond_equiv(v, pt, v.spec("method == 'continuous'")),
+                   "C19.D7", f"the continuous density is returned under {v.show(pt)}", v.f, r)
+        else:
+            w1 = v.spec("method == 'berg-luescher'")
+            w2 = v.spec("method != 'continuous' and method == 'berg-luescher'")
+            chk.ob(T + "topological_charge_density::lattice-iff-requested", cond_equiv(v, pt, w1) or cond_equiv(v, pt, w2),
+                   "C19.D7", f"the lattice density is returned under {v.show(pt)}", v.f, r)
+            d = decode_new(repo, v.ctx, [b for b in strip_stores(v.ctx, t)][0]) if strip_stores(v.ctx, t) else None
+            okq = bool(d and d[0] == FIELD and v.eq(d[1].get("mesh"), v.spec("field.mesh")) and
+                       is_const(v.ctx, d[1].get("nvdim", v.ctx.const(0)), 1) and v.eq(d[1].get("valid"), v.spec("o.valid", env={"o": o})))
+            chk.ob(T + "topological_charge_density::lattice-result-field", okq, "C19.D7",
+                   "the lattice density is a scalar field on field.mesh carrying the orientation field's validity", v.f, r)
+    loops = [s_ for s_ in v.stmts() if isinstance(s_, ast.For)]
+    if loops:
+        lp = loops[0]
+        # accumulators by role
+        ch_name = tc_name = None
+        incs = []
+        for st_ in walk_stmts(lp.body):
+            if isinstance(st_, ast.AugAssign) and isinstance(st_.target, ast.Name) and isinstance(st_.op, ast.Add):
+                if isinstance(st_.value, ast.Call) and ast.unparse(st_.value.func).endswith("bergluescher_angle"):
+                    ch_name = st_.target.id
+        for st_ in walk_stmts(lp.body):
+            if isinstance(st_, ast.AugAssign) and isinstance(st_.target, ast.Name) and st_.target.id != ch_name and isinstance(st_.op, ast.Add):
+                tc_name = st_.target.id
+                incs.append(st_)
+        inits = {st_.targets[0].id: st_ for st_ in walk_stmts(lp.body) if isinstance(st_, ast.Assign) and
+                 isinstance(st_.targets[0], ast.Name) and st_.targets[0].id in (ch_name, tc_name)}
+        ok0 = all(nm in inits and isinstance(inits[nm].value, ast.Constant) and inits[nm].value.value == 0 for nm in (ch_name, tc_name))
+        chk.ob(T + "topological_charge_density::accumulators-start-at-zero", bool(ch_name and tc_name) and ok0, "C19.D7",
+               "charge and triangle count must start from 0 in every cell", v.f, lp)
+        ok1 = len(incs) == 4 and all(isinstance(x.value, ast.Constant) and x.value.value == 1 for x in incs)
+        chk.ob(T + "topological_charge_density::one-count-per-triangle", ok1, "C19.D7",
+               "each of the four triangles adds exactly 1 to the triangle count", v.f, lp)
+        # each triangle guard is `a is not None and b is not None` of its two neighbours
+        for st_ in walk_stmts(lp.body):
+            if isinstance(st_, ast.If):
+                ang = [x for x in st_.body if isinstance(x, ast.AugAssign) and isinstance(x.value, ast.Call) and
+                       ast.unparse(x.value.func).endswith("bergluescher_angle")]
+                if not ang:
+                    continue
+                args = [v.term(a_, at=ang[0]) for a_ in ang[0].value.args]
+                want = v.spec("a is not None and b is not None", env={"a": args[1], "b": args[2]})
+                chk.ob(T + f"topological_charge_density::triangle-needs-both-neighbours@{len(args)}:{ang[0].lineno - lp.lineno}",
+                       v.eq(v.ev.term(st_.test, at=st_), want), "C19.D7",
+                       f"`{v.src(st_.test)}`: a triangle may be used only when both of its neighbours exist", v.f, st_)
+        sts = [s_ for s_ in walk_stmts(lp.body) if isinstance(s_, ast.Assign) and isinstance(s_.targets[0], ast.Subscript)]
+        if sts and tc_name:
+            tc = local_term(v, tc_name, sts[0])
+            pts = v.cfg.parent.get(id(sts[0]))
+            okg = bool(pts and isinstance(pts[0], ast.If) and pts[1] == "body" and
+                       v.eq(v.ev.term(pts[0].test, at=pts[0]), v.spec("t > 0", env={"t": local_term(v, tc_name, pts[0])})))
+            chk.ob(T + "topological_charge_density::normalised-iff-triangles-found", okg, "C19.D7",
+                   "the density is written exactly when at least one triangle was found (no division by zero, no lost cell)", v.f, sts[0])
+    # neighbouring angles: degrees on request only
+    n_ = FV(repo, T + "neighbouring_cell_angle", param_types=PT)
+    for st in n_.stmts():
+        if isinstance(st, ast.Assign) and (decode_call(n_.ctx, n_.term(st.value, at=st)) or ("",))[0] == "np.degrees":
+            chk.ob(T + "neighbouring_cell_angle::degrees-iff-requested", cond_equiv(n_, path_term(n_, st), n_.spec("units == 'deg'")),
+                   "C19.D7", f"degrees are produced under {n_.show(path_term(n_, st))}", n_.f, st)
+    for r, a in cm.returned_news(n_):
+        val = a.get("value")
+        c = decode_call(n_.ctx, val) if val is not None else None
+        okr = bool(c and c[0] == ".reshape" and len(c[1]) == 3 and is_const(n_.ctx, c[1][2], 1) and
+                   n_.eq(c[1][1], n_.ctx.mk(("star",), (n_.ctx.mk(("attr", "shape"), (c[1][0],)),)))) and \
+            is_const(n_.ctx, a.get("nvdim", n_.ctx.const(0)), 1)
+        chk.ob(T + "neighbouring_cell_angle::scalar-result", okr, "C19.D7",
+               f"value={n_.show(val)[:100] if val is not None else None}: the angles become a one-component field (shape + (1,))", n_.f, r)
+    # degenerate solid angle and accumulator of the tensor element
+    b = FV(repo, "util.util.bergluescher_angle")
+    z = [r_ for r_ in b.returns() if isinstance(r_.value, ast.Constant)]
+    chk.ob("util.util.bergluescher_angle::degenerate-is-zero", len(z) == 1 and z[0].value.value == 0, "C19.D7",
+           "coplanar triples span no solid angle: 0", b.f, z[0] if z else None)
+    e = FV(repo, T + "_N_element", param_types=PT)
+    acc = [s_.target.id for s_ in e.stmts() if isinstance(s_, ast.AugAssign) and isinstance(s_.target, ast.Name)]
+    init = [s_ for s_ in e.stmts() if isinstance(s_, ast.Assign) and isinstance(s_.targets[0], ast.Name) and acc and
+            s_.targets[0].id == acc[0]]
+    chk.ob(T + "_N_element::sum-starts-at-zero", len(init) == 1 and isinstance(init[0].value, ast.Constant) and init[0].value.value == 0,
+           "C19.D7", "the corner sum must start from 0", e.f, init[0] if init else None)
+    # numpy tensor: sampling points
+    w = FV(repo, T + "demag_tensor", param_types=PT)
+    mg = find_assign(w, lambda t_, s_: False) or None
+    grids = None
+    for st in w.stmts():
+        if isinstance(st, ast.Assign):
+            c = decode_call(w.ctx, w.term(st.value, at=st))
+            if c and c[0] == "np.meshgrid":
+                grids = (st, c)
+    okg = False
+    if grids:
+        st, c = grids
+        wants = [w.spec(f"np.linspace((-mesh.n[{k}] + 1) * mesh.cell[{k}], (mesh.n[{k}] - 1) * mesh.cell[{k}], mesh.n[{k}] * 2 - 1)")
+                 for k in range(3)]
+        okg = len(c[1]) == 3 and all(w.eq(c[1][k], wants[k]) for k in range(3)) and is_str(w.ctx, c[2].get("indexing", w.ctx.const(0)), "ij")
+    chk.ob(T + "demag_tensor::sampling-points", okg, "C19.D7",
+           "the numpy implementation must sample at (-n+1)*cell ... (n-1)*cell in 2n-1 steps per axis - the cell centres of the "
+           "2n-1 mesh the reference implementation uses - combined with indexing='ij' in x, y, z order", w.f, grids[0] if grids else None)
+    for q in ("_demag_tensor_field_based", "demag_tensor"):
+        x = FV(repo, T + q, param_types=PT)
+        r, t = _single_return(x)
+        c = decode_call(x.ctx, t)
+        okf = False
+        det = x.show(t)[:100]
+        if c and c[0] == "Field.fftn" and len(c[1]) == 1:
+            d = decode_new(repo, x.ctx, c[1][0])
+            if d:
+                val = d[1].get("value")
+                if q == "demag_tensor" and grids and val is not None:
+                    G = w.term(grids[0].value, at=grids[0])
+                    okf = x.eq(val, x.spec("np.stack(_N(mesh)((g0, g1, g2)), axis=3)", env={
+                        "g0": x.ctx.mk(("unpack", 0), (G,)), "g1": x.ctx.mk(("unpack", 1), (G,)), "g2": x.ctx.mk(("unpack", 2), (G,))})) \
+                        if x is w else False
+                elif val is not None:
+                    okf = x.eq(val, x.spec("_N(M)", env={"M": d[1].get("mesh")}))
+        if q == "demag_tensor" and c and c[0] == "Field.fftn" and grids:
+            d = decode_new(repo, w.ctx, decode_call(w.ctx, _single_return(w)[1])[1][0])
+            G = w.term(grids[0].value, at=grids[0])
+            okf = bool(d and d[1].get("value") is not None and w.eq(d[1]["value"], w.spec(
+                "np.stack(_N(mesh)((g0, g1, g2)), axis=3)", env={"g0": w.ctx.mk(("unpack", 0), (G,)),
+                                                                  "g1": w.ctx.mk(("unpack", 1), (G,)),
+                                                                  "g2": w.ctx.mk(("unpack", 2), (G,))})))
+        chk.ob(T + f"{q}::forward-transform-of-the-sampled-tensor", okf, "C19.D7",
+               f"returns {det}; expected Field(2n-1 mesh, nvdim=6, value=<the six components sampled on that mesh>).fftn()", x.f, r)
+    h = FV(repo, T + "demag_field", param_types=PT)
+    r3, t3 = _single_return(h)
+    okh = False
+    if (h.ctx.head_of(t3) or ("",))[:2] == ("prop", "real"):
+        d_ = decode_new(repo, h.ctx, h.ctx.args_of(t3)[0])
+        if d_ and d_[1].get("value") is not None:
+            val = d_[1]["value"]
+            if (h.ctx.head_of(val) or ("",))[0] == "sub":
+                base = h.ctx.args_of(val)[0]
+                hb = h.ctx.head_of(base)
+                if hb and hb[0] in ("attr", "prop") and hb[1] == "array":
+                    c = decode_call(h.ctx, h.ctx.args_of(base)[0])
+                    okh = bool(c and c[0] in ("Field.ifftn", ".ifftn")) and is_const(h.ctx, d_[1].get("nvdim", h.ctx.const(0)), 3)
+    chk.ob(T + "demag_field::inverse-transform", okh, "C19.D7",
+           "the field is built (nvdim=3) from the INVERSE transform of the stacked products", h.f, r3)
